@@ -405,6 +405,9 @@ class Gen:
             return r.choice([":leading colon", "%s%n%d percent", "", " ", "tab\there", "caf\xe9 \xfe\xff", "a  b"])
         if k < 0.8:
             return word(r, r.choice([100, 250, 400]), WORDCH + "   ")
+        if k < 0.83:
+            # longer than the daemon's outgoing line buffer
+            return word(r, r.choice([950, 990, 1000, 1010, 1023, 1024, 1100, 2000]), WORDCH + "   ").strip() or "x"
         return "".join(chr(r.choice(list(range(32, 127)) + list(range(160, 256)))) for _ in range(r.randint(1, 60)))
 
     # --- the scheduler ----------------------------------------------------
